@@ -60,6 +60,37 @@ def one_case(res, sig, ts, refvals, style, le, off, fds=False):
     return data
 
 
+class _Unsendable:
+    pass
+
+
+def failed_first_use(res, sig, ts, refvals):
+    """The first uses of a signature in this process are ones that fail
+    half-way: values that cannot be encoded from some position on, bytes that
+    end too early, a split that is abandoned.  Whatever the library remembers
+    about a signature must not be learnt from those."""
+    from txdbus import marshal as M
+    if len(ts) < 2:
+        return
+    res.count('transitions', 3)
+    tx = [space.to_tx(t, v, 'list') for t, v in zip(ts, refvals)]
+    for k in range(1, len(ts)):
+        try:
+            M.marshal(sig, tx[:k] + [_Unsendable()] * (len(ts) - k))
+        except Exception:
+            pass
+    data = R.encode(ts, refvals, 0, True)
+    for cut in (len(data) - 1, len(data) // 2, 1):
+        try:
+            M.unmarshal(sig, data[:cut])
+        except Exception:
+            pass
+    try:
+        next(iter(M.genCompleteTypes(sig)))
+    except Exception:
+        pass
+
+
 def _task(task):
     res = core.Result()
     nseq = 0
@@ -68,11 +99,15 @@ def _task(task):
         sig = space.sig_of(ts)
         styles = CS.styles_for(ts)
         nt = space.nontrivial(ts)
+        first = True
         for vals in space.assignments(ts):
             refvals = space.thaw(vals)
             res.count('states')
             if nt:
                 res.count('nontrivial')
+            if first:
+                first = False
+                failed_first_use(res, sig, ts, refvals)
             for style in styles:
                 for le in (True, False):
                     for off in range(8):
